@@ -173,14 +173,37 @@ def parse_op_text(t, n):
     return (w[0],)
 
 
+import re as _re
+_DLINE = _re.compile(r"^D (\d+) (\d+)((?: (?:\||-?\d+))*) *$")
+_BAD = _re.compile(r"AddressSanitizer|LeakSanitizer|UndefinedBehaviorSanitizer|runtime error:|munmap_chunk|double free|"
+                   r"malloc\(\)|free\(\)|corrupted|stack smashing|terminate called|Segmentation fault|core dumped|Aborted|"
+                   r"Assertion .* failed|\[timeout after")
+
+
+def abnormal(rc, out, done=True):
+    """did the child die / abort / time out / print a sanitizer or allocator report?"""
+    if rc != 0 or not done:
+        return "exit status %s%s" % (rc, "" if done else ", output incomplete")
+    m = _BAD.search(out)
+    return ("diagnostic in output: " + m.group(0)) if m else None
+
+
 def parse_harness(out, ncases):
-    """-> list (per case) of list (per op) of int lists"""
+    """-> list (per case) of list (per op) of int lists, and whether the DONE
+    marker was seen.  Tolerates garbage (e.g. an allocator abort message glued
+    to a line): only complete, well-formed dump lines are accepted, in op
+    order; anything else makes the case incomplete (= crashed)."""
     res = [[] for _ in range(ncases)]
     done = False
     for line in out.splitlines():
         if line.startswith("D "):
-            t = line.replace("|", " ").split()
-            res[int(t[1])].append([int(x) for x in t[3:]])
+            m = _DLINE.match(line)
+            if not m:
+                continue
+            ci, oi = int(m.group(1)), int(m.group(2))
+            if ci >= ncases or oi != len(res[ci]):
+                continue
+            res[ci].append([int(x) for x in m.group(3).replace("|", " ").split()])
         elif line.startswith("DONE"):
             done = True
     return res, done
